@@ -320,6 +320,18 @@ func (r *Run) checkExtAuth() {
 						}
 						out := disk.Eval(req, nil)
 						r.probe("auth_requests_evaluated")
+						// the same request through a server-alias of the host reaches the same rule
+						// (judged when the alias names one host only: the ingress declares a single host that nobody shares)
+						if alias := ing.Annotations[annPrefix+"server-alias"]; alias != "" && !strings.Contains(alias, ",") && r.hostOnlyOf(rule.Host, ingKey) && singleHost(ing) && r.aliasOnlyOf(alias, ingKey) {
+							areq := Req{HTTPS: https, Host: alias, Path: pp}
+							aout := disk.Eval(areq, nil)
+							r.probe("auth_alias_requests")
+							if aout.Kind == "backend" && r.backendOfIngressPath(ing, svc, port, aout.Backend) {
+								r.violate(&Violation{Property: "C18", Oracle: "fail-closed", Class: "protected-path-served-unauthenticated-through-alias",
+									Witness: fmt.Sprintf("%s declares external authentication (auth-url=%q oauth=%q) and server-alias %s: %s is forwarded without it: %s (the same request for %s: %s)", ingKey, url, oauth, alias, areq, aout, rule.Host, out)})
+								return
+							}
+						}
 						switch out.Kind {
 						case "deny", "auth":
 							if out.Kind == "deny" && len(out.Intercepts) == 0 {
@@ -549,4 +561,35 @@ func (r *Run) hostHasAuth(host string) bool {
 		}
 	}
 	return false
+}
+
+// singleHost: every rule and tls entry of the ingress names one and the same host.
+func singleHost(ing *networking.Ingress) bool {
+	hosts := map[string]bool{}
+	for _, r := range ing.Spec.Rules {
+		hosts[r.Host] = true
+	}
+	for _, t := range ing.Spec.TLS {
+		for _, h := range t.Hosts {
+			hosts[h] = true
+		}
+	}
+	return len(hosts) == 1 && ing.Spec.DefaultBackend == nil
+}
+
+// aliasOnlyOf: no other ingress claims the name, as alias or as host.
+func (r *Run) aliasOnlyOf(alias, key string) bool {
+	if !r.hostOnlyOf(alias, key) {
+		return false
+	}
+	for _, k := range r.kube.TruthKeys(KIngress) {
+		if k == key {
+			continue
+		}
+		ing := r.kube.Truth(KIngress, k).(*networking.Ingress)
+		if ing.Annotations[annPrefix+"server-alias"] == alias {
+			return false
+		}
+	}
+	return true
 }
